@@ -433,10 +433,24 @@ def run_shard(job: dict[str, Any]) -> dict[str, Any]:
         ct, st = make_pipe_pair()
         th = threading.Thread(target=_serve_quiet, args=(server, st), daemon=True)
         th.start()
+        box: list[Any] = []
+
+        def ask() -> None:
+            try:
+                box.append(introspect(ct))
+            except Exception as exc:  # noqa: BLE001
+                box.append(exc)
+
+        asker = threading.Thread(target=ask, daemon=True)
+        asker.start()
+        asker.join(30)
         try:
-            out.append(("pipe", introspect(ct), server, impl))
-        except Exception as exc:  # noqa: BLE001
-            out.append(("pipe", exc, server, impl))
+            if box:
+                out.append(("pipe", box[0], server, impl))
+            elif not th.is_alive():
+                out.append(("pipe", RuntimeError("serve thread ended without answering __describe__"), server, impl))
+            else:
+                chk.inconclusive_because("pipe introspect watchdog fired while the serve thread is still alive")
         finally:
             ct.close()
             th.join(5)
@@ -517,7 +531,7 @@ def run_shard(job: dict[str, Any]) -> dict[str, Any]:
                 chk.hit("hash_differs_judged")
                 if eh == base_hash:
                     chk.violation(f"hash_blind_to:{ek}", "protocol hash unchanged after a wire-relevant edit", wit)
-        if chk.rng.random() < 0.05:
+        if chk.rng.random() < 0.25:
             chk.sample({**wit0, "hash": base_hash})
     res = chk.to_result()
     res["hashes"] = hashes
@@ -767,3 +781,24 @@ def main(tier: str, seed: int) -> int:
     chk.extra["hash_seeds_compared"] = ["0", *sorted(set(str(s) for s in seeds_seen))]
     chk.exhaustive["generated_definitions_and_edits"] = False
     return chk.finish()
+
+
+def replay(path: str) -> int:
+    """Re-execute the recorded (tier, seed) and report whether the recorded mechanism key fires again.
+
+    Generation is a pure function of the seed, so the witness case is regenerated exactly; 1 = fired again,
+    2 = diverged (reported as inconclusive / flaky), never 0.
+    """
+    import json
+    import os
+
+    from lib import evidence
+
+    with open(path) as fh:
+        rec = json.load(fh)
+    main(rec["tier"], int(rec["seed"]))
+    with open(os.path.join(evidence.EVIDENCE_DIR, f"{PID}.json")) as fh:
+        cov = json.load(fh)["coverage"]
+    fired = rec["key"] in cov.get("unlisted_violation_keys", []) or rec["key"] in cov.get("known_findings_seen", [])
+    print(f"REPLAY property={PID} key={rec['key']} {'fired again' if fired else 'DIVERGED (inconclusive)'}")
+    return 1 if fired else 2
